@@ -65,3 +65,65 @@ Proof.
   rewrite (add_batch_dim_spec t s lead H1 H2 H3) in E. exact E.
 Qed.
 Print Assumptions C15_translated_add_batch_dim_spec.
+
+(* ================================ get_vect_dim ================================================= *)
+(* The generated function is the DISPATCH of get_vect_dim over the kind of space (Dict: recurse into the first item
+   of the observation and the member space of that key; Tuple: first members; MultiBinary and everything else: the
+   leading extent if the observation has more dimensions than the space, else 1) over abstract space / observation
+   operations, interpreted here on the model's spaces and observations. *)
+Definition sp_is_dict (sp : space) : bool := match sp with DictS _ => true | _ => false end.
+Definition sp_is_tuple (sp : space) : bool := match sp with TupleS _ => true | _ => false end.
+Definition sp_is_multibinary (sp : space) : bool := match sp with Leaf (MultiBinary _) => true | _ => false end.
+Definition sp_shape (sp : space) : list Z := match sp with Leaf l => map Z.of_nat (space_shape l) | _ => [] end.
+Definition ob_shape (o : obs) : list Z := match o with OLeaf t => map Z.of_nat (shp t) | _ => [] end.
+Definition ob_first_item (o : obs) : res (nat * obs) :=
+  match o with ODict ((k, t) :: _) => Ok (k, OLeaf t) | _ => PyErr ValueError end.
+Definition sp_get (sp : space) (k : nat) : res space :=
+  match sp with
+  | DictS fields => match lookup k fields with Some l => Ok (Leaf l) | None => PyErr IndexError end
+  | _ => PyErr ValueError
+  end.
+Definition ob_first (o : obs) : res obs := match o with OTuple (t :: _) => Ok (OLeaf t) | _ => PyErr IndexError end.
+Definition sp_first (sp : space) : res space := match sp with TupleS (l :: _) => Ok (Leaf l) | _ => PyErr IndexError end.
+
+Definition translated_vect_dim (fuel : nat) (o : obs) (sp : space) : res Z :=
+  get_vect_dim sp_is_dict sp_is_tuple sp_is_multibinary sp_shape ob_shape ob_first_item sp_get ob_first sp_first
+               fuel o sp.
+
+Lemma leaf_case (fuel : nat) (l : leaf) (t : tq) (n : nat) :
+  vect_dim_leaf true l t = Some n -> translated_vect_dim (S fuel) (OLeaf t) (Leaf l) = Ok (Z.of_nat n).
+Proof.
+  intros H. unfold translated_vect_dim. cbn [get_vect_dim sp_is_dict sp_is_tuple].
+  assert (E : Some (if length (space_shape l) <? rank t then hd 1 (shp t) else 1) = Some n)
+    by (destruct l; exact H).
+  injection E as <-. clear H.
+  unfold sp_shape, ob_shape, zlen, rank. rewrite !map_length. cbv zeta.
+  assert (G : (if (Z.of_nat (length (space_shape l)) <? Z.of_nat (length (shp t)))%Z
+               then zget (map Z.of_nat (shp t)) 0%Z else Ok 1%Z)
+              = Ok (Z.of_nat (if length (space_shape l) <? length (shp t) then hd 1 (shp t) else 1))).
+  { destruct (Nat.ltb_spec (length (space_shape l)) (length (shp t)));
+      destruct (Z.ltb_spec (Z.of_nat (length (space_shape l))) (Z.of_nat (length (shp t)))); try lia; [|reflexivity].
+    destruct (shp t) as [|b r]; [cbn in *; lia|]. reflexivity. }
+  destruct (sp_is_multibinary (Leaf l)); exact G.
+Qed.
+
+Theorem C15_translated_get_vect_dim_is_model :
+  forall (sp : space) (o : obs) (n fuel : nat),
+    2 <= fuel -> vect_dim true sp o = Some n -> translated_vect_dim fuel o sp = Ok (Z.of_nat n).
+Proof.
+  intros sp o n fuel Hf H.
+  destruct fuel as [|[|fuel]]; try lia.
+  destruct sp as [l|fields|members]; cbn [vect_dim] in H.
+  - destruct o as [t|ditems|titems]; try discriminate. apply (leaf_case (S fuel)). exact H.
+  - destruct o as [t|ditems|titems]; try discriminate.
+    destruct ditems as [|[k t] items']; [discriminate|].
+    destruct (lookup k fields) as [l|] eqn:El; [|discriminate].
+    unfold translated_vect_dim. cbn [get_vect_dim sp_is_dict ob_first_item bind sp_get]. rewrite El. cbn [bind].
+    apply (leaf_case fuel). exact H.
+  - destruct members as [|l members']; [destruct o; discriminate|].
+    destruct o as [t|ditems|titems]; try discriminate.
+    destruct titems as [|t items']; [discriminate|].
+    unfold translated_vect_dim. cbn [get_vect_dim sp_is_dict sp_is_tuple ob_first sp_first bind].
+    apply (leaf_case fuel). exact H.
+Qed.
+Print Assumptions C15_translated_get_vect_dim_is_model.
